@@ -258,6 +258,14 @@ def violation(ctx, name, payload, found_input=True):
 
 def finish(ctx, level, obligations, discharged, checker_cmd, extra_cov, assumptions):
     cov = dict(extra_cov)
+    if level == "proof" and obligations == 0:
+        # no theorem is stated for this property yet: what the run did is validate the model against
+        # the code and judge the property's predicate on the real code, so say exactly that
+        level = "translation_validation"
+        cov.setdefault("programs", cov.get("evaluations", 0))
+        cov.setdefault("disagreements_checked", cov.get("evaluations", 0))
+        cov.setdefault("explanation", "no property theorem yet; model-vs-implementation correspondence and the "
+                                      "property predicate evaluated on the real code for every generated case")
     cov.setdefault("obligations", obligations)
     cov.setdefault("discharged", discharged)
     cov.setdefault("checker_cmd", checker_cmd)
